@@ -226,13 +226,13 @@ for _n, _sf, _f, _dom in (("add", "view::add_t<>{}", np.add, ("any", "any")), ("
     vs = []
     for p in MIXED_PAIRS:
         vs.append((p, "F_AA|F_AS|F_SA" if p == ("i4", "f8") and _n in ("add", "multiply") else B_AA))
-    MIXED.append(dict(name=_n, ar=2, grp="mixed", dom=_dom, ref=_f, cls="exact", variants=vs, call="view::%s(a,b)" % _n, sf=_sf,
+    MIXED.append(dict(name=_n, ar=2, grp="mixed_a" if _n in ("add", "subtract", "multiply") else "mixed_b", dom=_dom, ref=_f, cls="exact", variants=vs, call="view::%s(a,b)" % _n, sf=_sf,
                       hdr="nmtools/array/view/ufuncs/%s.hpp" % _n, w="common", prefix="uf", params=None, note=None))
-MIXED.append(dict(name="divide", ar=2, grp="mixed", dom=("any", "nz"), ref=_cdiv, cls="exact",
+MIXED.append(dict(name="divide", ar=2, grp="mixed_b", dom=("any", "nz"), ref=_cdiv, cls="exact",
                   variants=[(("i4", "f8"), B_AA), (("f4", "f8"), B_AA), (("i8", "i4"), B_AA), (("f4", "i4"), B_AA)], call="view::divide(a,b)",
                   sf="view::fun::divide{}", hdr="nmtools/array/view/ufuncs/divide.hpp", w="common", prefix="uf", params=None, note=None))
 # power with a scalar operand of another type: power_t has a dedicated branch for operands that arrive wrapped in a view
-MIXED.append(dict(name="power", ar=2, grp="mixed", dom=("pw_base", "pw_exp"), ref=np.power, cls="ulp",
+MIXED.append(dict(name="power", ar=2, grp="mixed_b", dom=("pw_base", "pw_exp"), ref=np.power, cls="ulp",
                   variants=[(("f4", "i8"), "F_AA|F_AS|F_SA"), (("f8", "i4"), "F_AA|F_AS")], call="view::power(a,b)",
                   sf="view::power_t<>{}", hdr="nmtools/array/view/ufuncs/power.hpp", w="float64", prefix="uf", params=None, note=None))
 OPS += MIXED
@@ -286,7 +286,7 @@ def opname(o, types):
     return "%s_%s_%s" % (o["prefix"], o["name"], "".join(types))
 
 
-GROUPS = ["arith", "cmp", "logic", "minmax", "trig", "explog", "round", "act_a", "act_b", "mixed", "views", "outer"]
+GROUPS = ["arith", "cmp", "logic", "minmax", "trig", "explog", "round", "act_a", "act_b", "mixed_a", "mixed_b", "views", "outer"]
 HARNESS = ["c07_" + g for g in GROUPS]
 
 BY_OPNAME = {}
